@@ -696,8 +696,12 @@ def hit_condition(A: Analysis, col: Collector, R: RunFn, rule: str) -> list[ast.
                 break
             if isinstance(p, ast.If) and any(child is s or is_within(child, s) for s in p.body):
                 t = p.test
-                conds.extend(t.values if isinstance(t, ast.BoolOp) and isinstance(t.op, ast.And) else [t])
-                valid_tests.append(p)
+                these = list(t.values) if isinstance(t, ast.BoolOp) and isinstance(t.op, ast.And) else [t]
+                conds.extend(these)
+                # only a test on the looked-up result is a hit test (its false edge is the
+                # cache miss); an enclosing `if not rerun:` is not
+                if name and any(name in {x.id for x in ast.walk(c) if isinstance(x, ast.Name)} for c in these):
+                    valid_tests.append(p)
             child = p
         not_none = errored_ok = False
         for c in conds:
@@ -880,9 +884,20 @@ def errored_is_reported(A: Analysis, col: Collector, rule: str):
     fn = A.func("pydra.compose.base.task.Task.__call__")
     col.scope(fn.qualname)
     cfg = A.cfg(fn)
-    tests = [n for n in cfg.nodes if n.kind == "test" and isinstance(n.stmt, ast.If) and norm(n.stmt.test).endswith(".errored") and not isinstance(n.stmt.test, ast.UnaryOp)]
-    A.anchor("`if result.errored` in Task.__call__", tests)
+    def implies_not_errored_when_false(test: ast.AST) -> bool:
+        """the test being False implies `<x>.errored` is False: the attribute itself, or a
+        disjunction containing it."""
+        if isinstance(test, ast.Attribute) and test.attr == "errored":
+            return True
+        if isinstance(test, ast.BoolOp) and isinstance(test.op, ast.Or):
+            return any(implies_not_errored_when_false(v) for v in test.values)
+        return False
+
+    mentions = [n for n in cfg.nodes if n.kind == "test" and isinstance(n.stmt, ast.If) and any(isinstance(a, ast.Attribute) and a.attr == "errored" for a in ast.walk(n.stmt.test))]
+    tests = [n for n in mentions if implies_not_errored_when_false(n.stmt.test)]
     toks = A.rm.tokens_fn(fn)
+    if not tests:
+        col.fail(rule, fn.qualname, "no-complete-errored-test", "Task.__call__ has no test whose false branch implies `not result.errored`" + (f" (only `{norm(mentions[0].stmt.test, 50)}`)" if mentions else "") + ": an errored result without an error file is returned as outputs", A.loc(mentions[0].stmt) if mentions else A.loc(fn.node))
     for t in tests:
         tsucc = [m for l, m in t.succ if l == "T"]
         esc = explore(cfg, [(m, None) for m in tsucc], toks)
@@ -895,10 +910,10 @@ def errored_is_reported(A: Analysis, col: Collector, rule: str):
     rets = [n for n in cfg.nodes if n.kind == "return" and n.stmt.value is not None and norm(n.stmt.value).endswith(".outputs")]
     A.anchor("return result.outputs in Task.__call__", rets)
     for r in rets:
-        if cfg.dominated_by_edge(r, lambda n: n in tests, "F"):
+        if tests and cfg.dominated_by_edge(r, lambda n: n in tests, "F"):
             col.ok(rule, "Task.__call__: `return result.outputs` is dominated by the not-errored branch", A.loc(r.stmt))
         else:
-            col.fail(rule, fn.qualname, "outputs-returned-without-errored-test", "`return result.outputs` is reachable without passing the `result.errored` test", A.loc(r.stmt))
+            col.fail(rule, fn.qualname, "outputs-returned-without-errored-test", "`return result.outputs` is reachable without passing the false branch of a complete `result.errored` test", A.loc(r.stmt))
     # Job.done
     fd = A.func("pydra.engine.job.Job.done")
     col.scope(fd.qualname)
